@@ -125,13 +125,13 @@ func c06Op(b *boc.BitString, o sx.V) (out sx.V) {
 		if err != nil {
 			return sx.A("err")
 		}
-		return sx.BigN(v)
+		return scribbleBig(sx.BigN(v), v)
 	case "rbigint":
 		v, err := b.ReadBigInt(a[0].I())
 		if err != nil {
 			return sx.A("err")
 		}
-		return sx.BigZ(v)
+		return scribbleBig(sx.BigZ(v), v)
 	case "rbyte":
 		v, err := b.ReadByte()
 		return errOr(err, sx.N(uint64(v)))
@@ -146,7 +146,9 @@ func c06Op(b *boc.BitString, o sx.V) (out sx.V) {
 		if v.GetWriteCursor() != a[0].I() {
 			return sx.L(sx.A("harness-error"), sx.A("rbits-len"))
 		}
-		return sx.Bits(bitsOf(&v))
+		out := sx.Bits(bitsOf(&v))
+		scribbleBits(&v)
+		return out
 	case "runary":
 		v, err := b.ReadUnary()
 		return errOr(err, sx.N(uint64(v)))
@@ -164,6 +166,43 @@ func c06Op(b *boc.BitString, o sx.V) (out sx.V) {
 		return fiftToSx(b.ToFiftHex())
 	}
 	return sx.L(sx.A("harness-error"), sx.A("badop"))
+}
+
+// The value a reader returns belongs to the caller: after it has been recorded it is modified
+// in place, the way ordinary big.Int / BitString code does (x.Add(x, y), Append ...).  Nothing
+// read later — from this or any other bit string — may be affected.
+var scribbleCount int
+
+func scribbleBig(out sx.V, v *big.Int) sx.V {
+	scribbleCount++
+	switch scribbleCount % 3 {
+	case 0:
+		v.Add(v, big.NewInt(41))
+	case 1:
+		v.SetInt64(-7)
+	default:
+		v.Lsh(v.Add(v, big.NewInt(1)), 70)
+	}
+	return out
+}
+
+func scribbleBits(v *boc.BitString) {
+	// flip every bit of the result in place
+	for i, c := range bitsOf(v) {
+		if c == '1' {
+			_ = v.Off(i)
+		} else {
+			_ = v.On(i)
+		}
+	}
+	v.Grow(9)
+	_ = v.WriteUint(0x1FF, 9)
+}
+
+func scribbleBytes(b []byte) {
+	for i := range b {
+		b[i] ^= 0xFF
+	}
 }
 
 func execC06Seq(in sx.V) sx.V {
